@@ -344,7 +344,13 @@ fn distributor(cfg: &Cfg, rep: &mut Report, h: u64, variant: u32) {
         (root, proofs, recs)
     };
     let n = 2 + rng.idx(14);
-    let (mut root, mut proofs, mut recs) = mk_tree(&mut rng, n, 0);
+    // indices start at 0, somewhere in the middle, or end at u32::MAX
+    let bases: [u32; 5] = [0, 0, 0, 1000, u32::MAX - 19];
+    // (in the positional form the index is the leaf's position, so those trees start at 0)
+    let b0 = if positional { 0 } else { *rng.pick(&bases) };
+    let (mut root, mut proofs, mut recs) = mk_tree(&mut rng, n, b0);
+    // every index any tree of this history has used, plus a few never used: the flags watched
+    let mut watch: Vec<u32> = (0..4).chain(recs.iter().map(|r| r.0)).collect();
     let token = e.register(TokBase, ());
     let funder = w.account();
     invoke::<()>(e, &token, "mint", args!(e, funder, 1_000_000i128)).unwrap();
@@ -372,7 +378,7 @@ fn distributor(cfg: &Cfg, rep: &mut Report, h: u64, variant: u32) {
             w.set_ledger(t);
             rep.op(format!("ledger -> {t}"));
             rep.count("ledger_moves");
-            for x in 0..20u32 {
+            for x in watch.clone() {
                 let g: bool = invoke(e, &c, "is_claimed", args!(e, x)).must("is_claimed");
                 rep.check("ref", g == claimed.contains(&x), &format!("C17/ref/{vname}/claimed-flag-after-ledger-move"), || format!("after moving to ledger {t}: is_claimed({x}) = {g}, model {}", claimed.contains(&x)));
             }
@@ -381,7 +387,11 @@ fn distributor(cfg: &Cfg, rep: &mut Report, h: u64, variant: u32) {
         if k < 6 && variant != 3 {
             // root change: a new tree whose indices partly overlap the old ones
             let n2 = 2 + rng.idx(14);
-            let t = mk_tree(&mut rng, n2, 0);
+            let b2 = if positional { 0 } else { *rng.pick(&bases) };
+            let t = mk_tree(&mut rng, n2, b2);
+            watch.extend(t.2.iter().map(|r| r.0));
+            watch.sort();
+            watch.dedup();
             old_tree = Some((proofs.clone(), recs.clone()));
             root = t.0;
             proofs = t.1;
@@ -396,14 +406,14 @@ fn distributor(cfg: &Cfg, rep: &mut Report, h: u64, variant: u32) {
             let (oidx, ousr, oamt) = orecs[oi];
             let still_valid = recs.iter().enumerate().any(|(j, r)| *r == orecs[oi] && proofs[j] == oproofs[oi]);
             if !still_valid {
-                let before: Vec<bool> = (0..20u32).map(|x| invoke::<bool>(e, &c, "is_claimed", args!(e, x)).must("is_claimed")).collect();
+                let before: Vec<bool> = watch.iter().map(|x| invoke::<bool>(e, &c, "is_claimed", args!(e, *x)).must("is_claimed")).collect();
                 e.mock_all_auths();
                 let got: Result<(), Fail> = invoke(e, &c, "claim", args!(e, oidx, users[ousr], oamt, to_vec(e, &oproofs[oi])));
                 rep.evaluations += 1;
                 rep.op(format!("#{step} claim(index {oidx}, user {ousr}, amount {oamt}) with the proof from the PREVIOUS tree -> {}", tag(&got)));
                 rep.case(format!("{vname}/proof-from-previous-root/claimed-before={}/{}", claimed.contains(&oidx), tag(&got)));
                 rep.check("claim", got.is_err(), &format!("C17/claim/{vname}/claimed-with-invalid-proof/proof-from-previous-root"), || format!("a claim for index {oidx} proved against the previous root was honoured after set_root"));
-                let after: Vec<bool> = (0..20u32).map(|x| invoke::<bool>(e, &c, "is_claimed", args!(e, x)).must("is_claimed")).collect();
+                let after: Vec<bool> = watch.iter().map(|x| invoke::<bool>(e, &c, "is_claimed", args!(e, *x)).must("is_claimed")).collect();
                 if got.is_err() {
                     rep.check("res", before == after, &format!("C17/res/{vname}/failed-claim-marked-something"), || format!("failed claim changed the claimed flags: {before:?} -> {after:?}"));
                 } else {
@@ -436,7 +446,7 @@ fn distributor(cfg: &Cfg, rep: &mut Report, h: u64, variant: u32) {
             _ => (idx, usr, amt, vec![]),
         };
         let genuine = kind == "valid" || (kind == "zero-amount" && amt == 0) || (kind == "proof-of-other-index" && proofs[j] == proofs[i] && recs.len() == 1) || (kind == "empty-proof" && recs.len() == 1);
-        let before: Vec<bool> = (0..20u32).map(|x| invoke::<bool>(e, &c, "is_claimed", args!(e, x)).must("is_claimed")).collect();
+        let before: Vec<bool> = watch.iter().map(|x| invoke::<bool>(e, &c, "is_claimed", args!(e, *x)).must("is_claimed")).collect();
         e.mock_all_auths();
         let got: Result<(), Fail> = invoke(e, &c, "claim", args!(e, pidx, users[pusr], pamt, to_vec(e, &proof)));
         rep.evaluations += 1;
@@ -460,9 +470,9 @@ fn distributor(cfg: &Cfg, rep: &mut Report, h: u64, variant: u32) {
                 pot -= pamt;
             }
         }
-        let after: Vec<bool> = (0..20u32).map(|x| invoke::<bool>(e, &c, "is_claimed", args!(e, x)).must("is_claimed")).collect();
-        for x in 0..20u32 {
-            rep.check("ref", after[x as usize] == claimed.contains(&x), &format!("C17/ref/{vname}/is_claimed"), || format!("is_claimed({x}) = {}, model {}", after[x as usize], claimed.contains(&x)));
+        let after: Vec<bool> = watch.iter().map(|x| invoke::<bool>(e, &c, "is_claimed", args!(e, *x)).must("is_claimed")).collect();
+        for (wi, x) in watch.iter().enumerate() {
+            rep.check("ref", after[wi] == claimed.contains(x), &format!("C17/ref/{vname}/is_claimed"), || format!("is_claimed({x}) = {}, model {}", after[wi], claimed.contains(x)));
         }
         if got.is_err() {
             rep.check("res", before == after, &format!("C17/res/{vname}/failed-claim-marked-something"), || format!("failed claim changed the claimed flags: {before:?} -> {after:?}"));
